@@ -65,3 +65,18 @@ Proof.
   vm_compute in H. destruct H as [_ H]. exact (H eq_refl).
 Qed.
 Print Assumptions C17_refuted_empty_segment.
+
+(* a route whose If-condition fails: every method is answered 404, the filter still lists the route's method
+   (known finding K-C17-3: computeAllowedMethods does not consult conditions) *)
+Theorem C17_refuted_failing_condition : ~ C17_options_full_statement.
+Proof.
+  intros H.
+  specialize (H O0 {| t_router := Curly;
+                      t_services := [ {| s_root := L "/"; s_routes :=
+                         [ {| r_id := 1; r_method := L "GETALL"; r_rel := L "/"; r_consumes := []; r_produces := [];
+                              r_conds := [false]; r_noct := []; r_enc := None |} ] |} ] |}
+                (rq0 "/") (L "GETALL")).
+  vm_compute in H. destruct H as [H _]. assert (F : false = true -> False) by discriminate. apply F.
+  symmetry. apply H. left. reflexivity.
+Qed.
+Print Assumptions C17_refuted_failing_condition.
